@@ -116,6 +116,15 @@ pub async fn throttle_collect(
 	errors: mpsc::Sender<RuntimeError>,
 	mut last: Instant,
 ) -> Result<Option<Vec<Event>>, CriticalError> {
+	// verification seam: measure the throttle window on tokio's (pausable) clock
+	#[cfg(watchexec_verif)]
+	use tokio::time::Instant;
+	#[cfg(watchexec_verif)]
+	let mut last = {
+		let _ = last;
+		Instant::now()
+	};
+
 	if events.is_closed() {
 		trace!("events channel closed, stopping");
 		return Ok(None);
